@@ -299,11 +299,16 @@ def sPairRems (o : Order) (gb : List (BPoly α)) : Option (List (BPoly α)) :=
           | none => none
         | _, _ => none) acc) (some [])
 
+/-- size cap of a modelled Buchberger run -/
+def maxBasis : Nat := 400
+
 /-- rounds of `GroebnerBasis()` -/
 def buchberger (o : Order) : Nat → List (BPoly α) → Option (List (BPoly α))
   | 0, _ => none
   | fuel + 1, gb =>
-    match sPairRems F o gb with
+    -- the model gives up (reported as `fuel-exhausted`, never as a value) on runs that blow up
+    if gb.length > maxBasis then none
+    else match sPairRems F o gb with
     | none => none
     | some [] => some gb
     | some news => buchberger o fuel (gb ++ news)
@@ -315,7 +320,7 @@ structure Ideal (α : Type) where
   isMinimal : Int := 0
   isReduced : Int := 0
 
-def groebnerFuel : Nat := 200
+def groebnerFuel : Nat := 40
 
 /-- `GroebnerBasis()` -/
 def Ideal.groebnerBasis (o : Order) (id : Ideal α) : Option (Ideal α) :=
